@@ -33,3 +33,46 @@ Fixpoint check_steps (h : rhandle) (l : list rstep) : bool :=
 
 Definition check_case (c : rcase) : bool :=
   check_steps (new_handle (rc_dims c) (rc_maxd c) (rc_chunk c) (rc_esize c)) (rc_steps c).
+
+(* ---------------------------------------------------------------- the hypotheses of Props/C13Header.v, decided
+
+   stored_ok img dims maxd: the image (file bytes from the header address on) satisfies the invariant [stored]
+   of Proofs/Resize.v at address 0 for the handle's extents and maxima (Proofs/ResizeTie.v stored_ok_sound).
+   The tie evaluates it on every image the implementation has in front of a Resize call, together with handle_ok. *)
+Fixpoint split_ds (ms : list hmsg) : option (list hmsg * hmsg * list hmsg) :=
+  match ms with
+  | [] => None
+  | m :: r => if hm_type m =? MSG_DATASPACE then Some ([], m, r)
+              else match split_ds r with
+                   | Some (b, d, a) => Some (m :: b, d, a)
+                   | None => None
+                   end
+  end.
+
+Definition stored_ok (img : bytes) (dims maxd : list N) : bool :=
+  match dec_ohdr false img 0 with
+  | Ok oh =>
+      let ms := map to_hmsg (ohp_msgs oh) in
+      let x := {| oh_version := 2; oh_flags := ohp_flags oh; oh_refcount := 1; oh_msgs := ms |} in
+      let e := enc_ohdr_v2 x in
+      match split_ds ms with
+      | Some (b, d, a) =>
+          wf_ohdr_v2 x && bytes_eqb (firstn (length e) img) e &&
+          bytes_eqb (hm_data d) (enc_dataspace {| ds_dims := dims; ds_maxdims := maxd |}) &&
+          wf_dataspace {| ds_dims := dims; ds_maxdims := maxd |} &&
+          room ms (skipn (length e) img) && (size_ohdr_v2 x + 8 <? 9223372036854775808)
+      | None => false
+      end
+  | _ => false
+  end.
+
+Definition hyp_step (h : rhandle) (s : rstep) : rhandle * bool :=
+  let '(h', _, _) := resize false h (unhex (rs_before s)) 0 (rs_new s) in
+  (h', handle_ok h && stored_ok (unhex (rs_before s)) (rh_dims h) (rh_maxdims h)).
+Fixpoint hyp_steps (h : rhandle) (l : list rstep) : bool :=
+  match l with
+  | [] => true
+  | s :: r => let '(h', ok) := hyp_step h s in ok && hyp_steps h' r
+  end.
+Definition hyp_case (c : rcase) : bool :=
+  hyp_steps (new_handle (rc_dims c) (rc_maxd c) (rc_chunk c) (rc_esize c)) (rc_steps c).
